@@ -628,6 +628,9 @@ pub fn hash_script_data(
 }
 
 // wasm-bindgen can't accept Option without clearing memory, so we avoid exposing this in WASM
+// Pool deposits are returned by the ledger at the epoch boundary to the pool's reward account,
+// not inside the transaction that carries the retirement certificate, so they are not an implicit input.
+#[allow(unused_variables)]
 pub fn internal_get_implicit_input(
     withdrawals: &Option<Withdrawals>,
     certs: &Option<Certificates>,
@@ -656,7 +659,6 @@ pub fn internal_get_implicit_input(
                         acc.checked_add(&key_deposit)
                     }
                 }
-                CertificateEnum::PoolRetirement(_) => acc.checked_add(&pool_deposit),
                 CertificateEnum::DRepDeregistration(cert) => acc.checked_add(&cert.coin),
                 _ => Ok(acc),
             })?,
